@@ -37,7 +37,11 @@ def strategy(tier):
     w = {'mixed': 4, 'growshrink': 3, 'deep': 3, 'links': 2, 'boot': 2, 'hybrid': 1, 'exactfill': 6, 'ptedge': 2, 'samename': 1, 'reloctwins': 1, 'rrfull': 1}
     if tier == 'thorough':
         w['manydirs'] = 1
-    return st.tuples(gen.any_profile(reopen_ok=False, weights=w, with_manydirs=(tier == 'thorough')), st.none())
+    base = gen.any_profile(reopen_ok=False, weights=w, with_manydirs=(tier == 'thorough'))       # (in effect uniform, see gen.weighted)
+    # directories that grow over several sectors and shrink again get a real share (the detection of seed C03-i - 7 hits per
+    # run - did not survive an unrelated change of the random stream)
+    more = gen.growshrink(reopen_ok=False).map(lambda p: dict(p, profile='growshrink'))
+    return st.tuples(gen.weighted([(base, 10), (more, 3)]), st.none())
 
 
 def tree_of(msg):
